@@ -44,6 +44,20 @@ func (s *shortFile) Read(p []byte) (int, error) {
 	return s.File.Read(p)
 }
 
+// ReadAt may also come back short without an error when the underlying file is a wrapper or a
+// network file system: the statement lists short reads for positional access too.
+func (s *shortFile) ReadAt(p []byte, off int64) (int, error) {
+	if s.every > 0 && len(p) > 1 && s.r.Intn(s.every) == 0 {
+		k := 1 + s.r.Intn(len(p)-1)
+		if s.r.Intn(3) == 0 {
+			k = max(1, min(len(p)-1, (s.r.Intn(len(p)/2048+1))*2048+s.r.Intn(4000)-2000))
+		}
+		s.cuts++
+		return s.File.ReadAt(p[:k], off)
+	}
+	return s.File.ReadAt(p, off)
+}
+
 type viewOp struct {
 	Kind   string `json:"kind"` // read | readat | seek
 	N      int    `json:"n,omitempty"`
@@ -332,7 +346,7 @@ func C10(e *Env) {
 	run.Obs("refcrypt_anchor", note)
 	dir := e.Dir("c10")
 	rng := e.Rng(10)
-	nCases := e.Pick(200, 5000)
+	nCases := e.Pick(3000, 60000)
 	nOps := e.Pick(100, 150)
 	var cases []c10Case
 	for i := 0; i < nCases; i++ {
